@@ -461,7 +461,9 @@ def gen_case(draw, tier):
         elif mode == 'unknown-iface':
             call['iface'] = 'org.verif.Nowhere'
         elif mode == 'unknown-member':
-            call['member'] = 'Zz'
+            # not declared on any interface - including names that DO exist as Python attributes of the exported object
+            call['member'] = draw(st.sampled_from(['Zz', 'Zz', 'getInterfaces', 'emitSignal', 'getObjectPath', 'dbus_Ma',
+                                                   '_verif_call', 'Get', '__init__']))
         elif mode == 'wrong-sig':
             call['sig'] = draw(_sigs)
         elif mode == 'ping':
